@@ -351,3 +351,28 @@ MUTANTS["C19"] = [
     M("timeout_not_from_cli", CLI, "kernel, parser, machine_model, semantics, args.lcd_timeout, args.consider_flag_deps", "kernel, parser, machine_model, semantics, 10, args.consider_flag_deps", "R2"),
     M("poll_break_inverted", KDG, "                        if any(p.is_alive() for p in processes):\n                            time.sleep(0.2)\n                        else:", "                        if not any(p.is_alive() for p in processes):\n                            time.sleep(0.2)\n                        else:", "R1"),
 ]
+
+MUTANTS["C20"] = [
+    M("revert_index_guard", DBI, "        if i + 3 > len(input_data) or (i + 3 < len(input_data) and input_data[i + 3].strip() != \"\"):", "        if input_data[i + 3].strip() != \"\":", "R4", "revert of the fix"),
+    M("guard_too_weak", DBI, "        if i + 3 > len(input_data) or (", "        if i + 2 > len(input_data) or (", "R4"),
+    M("malformed_continues", DBI, "                file=sys.stderr,\n            )\n            break\n        else:\n            i_form", "                file=sys.stderr,\n            )\n            continue\n        else:\n            i_form", "R4"),
+    M("x86_y_is_xmm", DBI, '        return {"class": "register", "name": operand + "mm"}', '        return {"class": "register", "name": "xmm"}', "R1"),
+    M("x86_scale_flag", DBI, '            "scale": 8 if "s" in operand else 1,\n        }\n    else:\n        raise ValueError("Parameter {} is not a valid operand code".format(operand))\n\n\n########################', '            "scale": 8 if "i" in operand else 1,\n        }\n    else:\n        raise ValueError("Parameter {} is not a valid operand code".format(operand))\n\n\n########################', "R1"),
+    M("a64_default_shape", DBI, '"shape": operand[1:2] if operand[1:2] != "" else "d",', '"shape": operand[1:2] if operand[1:2] != "" else "s",', "R1"),
+    M("a64_no_q", DBI, '    elif operand in "wxbhsdq":\n        return {"class": "register", "prefix": operand}', '    elif operand in "wxbhsd":\n        return {"class": "register", "prefix": operand}', "R1"),
+    M("a64_post_index_flag", DBI, '"post_indexed": True if "p" in operand else False,\n        }\n    else:\n        raise ValueError("Parameter {} is not a valid operand code".format(operand))\n\n\ndef _create_db_operand_x86',
+      '"post_indexed": True if "r" in operand else False,\n        }\n    else:\n        raise ValueError("Parameter {} is not a valid operand code".format(operand))\n\n\ndef _create_db_operand_x86', "R1"),
+    M("operands_split_on_dash", DBI, '            operands = i_form.split("-")[1].split("_")', '            operands = i_form.split("-")[1].split("-")', "R1"),
+    M("reciprocals_to_9", DBI, "reciprocals = [1 / x for x in range(1, 11)]", "reciprocals = [1 / x for x in range(1, 10)]", "R2"),
+    M("tp_window_asymmetric", DBI, "if reci * 0.95 <= measurement <= reci * 1.05:", "if reci * 0.95 <= measurement <= reci * 1.5:", "R2"),
+    M("lt_floor_rounding", DBI, "return float(round(measurement))", "return float(math.floor(measurement))", "R2"),
+    M("lt_window_and", DBI, "            math.floor(measurement) * 1.05 >= measurement\n            or math.ceil(measurement) * 0.95 <= measurement", "            math.floor(measurement) * 1.05 >= measurement\n            and math.ceil(measurement) * 0.95 <= measurement", "R2"),
+    M("invented_value", DBI, "    # measurement is incorrect\n    return None", "    # measurement is incorrect\n    return measurement", "R2"),
+    M("asm_tp_lt_swapped", DBI, 'throughput=_validate_measurement(float(input_data[i + 2].split()[1]), "tp"),', 'throughput=_validate_measurement(float(input_data[i + 1].split()[1]), "tp"),', "R2"),
+    M("ibench_lt_as_tp", DBI, 'entry.latency = _validate_measurement(float(line.split()[1]), "lt")', 'entry.latency = _validate_measurement(float(line.split()[1]), "tp")', "R2"),
+    M("merge_key_full_name", DBI, 'key = "-".join(instruction.split("-")[:2])', 'key = "-".join(instruction.split("-")[:3])', "R3"),
+    M("merge_always_new", DBI, "        if key in db_entries:\n            # add only TP/LT value\n            entry = db_entries[key]\n        else:\n            mnemonic_parsed", "        if False:\n            # add only TP/LT value\n            entry = db_entries[key]\n        else:\n            mnemonic_parsed", "R3"),
+    M("only_first_entry_inserted", DBI, "    for entry in db_entries:\n        mm.set_instruction_entry(db_entries[entry])", "    for entry in db_entries:\n        mm.set_instruction_entry(db_entries[entry])\n        break", "R5"),
+    M("new_form_not_listed", HW, '            self._data["instruction_forms"].append(instr_data)\n', "", "R5"),
+    M("entry_args_swapped", HW, "            entry.latency,\n            entry.port_pressure,\n            entry.throughput,", "            entry.throughput,\n            entry.port_pressure,\n            entry.latency,", "R5"),
+]
